@@ -266,12 +266,9 @@ def _const_truth(e) -> Optional[bool]:
     return None
 
 
-_MODULE_NAMES: Dict[int, Set[str]] = {}
-
-
 def _module_names(mod) -> Set[str]:
     """names bound at module level (assignments, definitions, imports; `from x import *` makes everything known), plus builtins"""
-    got = _MODULE_NAMES.get(id(mod))
+    got = getattr(mod, '_x1_names', None)    # cached on the module object itself (one model per run; several in the bank)
     if got is None:
         import builtins
         got = set(dir(builtins)) | {'__name__', '__file__', '__doc__'}
@@ -290,7 +287,10 @@ def _module_names(mod) -> Set[str]:
                 for x in ast.walk(st):
                     if isinstance(x, ast.Name) and isinstance(x.ctx, ast.Store):
                         got.add(x.id)
-        _MODULE_NAMES[id(mod)] = got
+        try:
+            object.__setattr__(mod, '_x1_names', got)
+        except Exception:
+            pass
     out = set(got)
     return out
 
